@@ -35,3 +35,51 @@ package layer2
 //@   loop 2 invariant forall s string, k int :: (s in visited(1)) && s != curkey(1) && Entry(a, s, k) && a.ips[s][k].ip.Equal(ip) ==> !Covers(a.ips[s][k], intf)
 //@   loop 2 invariant forall k int :: 0 <= k && k < iter && ipAdvertisements[k].ip.Equal(ip) ==> !Covers(ipAdvertisements[k], intf)
 //@   loop 2 invariant ipFound == ((exists s string, k int :: (s in visited(1)) && s != curkey(1) && Entry(a, s, k) && a.ips[s][k].ip.Equal(ip)) || (exists k int :: 0 <= k && k < iter && ipAdvertisements[k].ip.Equal(ip)))
+
+// ---- announce / withdraw: the service -> advertisements map is what the responders read ----
+// AnnInv: the maps exist and the advertisement lists of different services do not share a backing array.
+//@ pred AnnInv(a *Announce) := a != nil && a.ips != nil && a.ipRefcnt != nil && a.ndps != nil && (forall i int :: i in a.ndps ==> a.ndps[i] != nil) &&
+//@     (forall s1 string, s2 string :: { mapval(a.ips, s1), mapval(a.ips, s2) } s1 != s2 && (s1 in a.ips) && (s2 in a.ips) && a.ips[s1] != nil ==> !sameArray(a.ips[s1], a.ips[s2]))
+
+// NDP group bookkeeping of a responder: touches only the responder's own map (not verified here).
+//@ func (*ndpResponder).Watch
+//@   trusted
+//@   modifies map[string]int64
+//@ func (*ndpResponder).Unwatch
+//@   trusted
+//@   modifies map[string]int64
+// The spam channel may block: it must not be written while the mutex is held (comment on Announce.spamCh).
+//@ func (*Announce).doSpam
+//@   lockonly
+//@   requires [unlockedSend] lockstate(a.RWMutex) == 0
+//@   modifies nothing
+
+//@ func (*Announce).SetBalancer
+//@   requires AnnInv(a) && lockstate(a.RWMutex) == 0
+//@   ensures [inv] AnnInv(a) && lockstate(a.RWMutex) == 0
+//@   ensures [has] exists k int :: Entry(a, name, k) && a.ips[name][k] == adv
+//@   ensures [kept] forall k int :: old(Entry(a, name, k)) ==> Entry(a, name, k) &&
+//@       a.ips[name][k] == ite(old(a.ips[name][k].ip.Equal(adv.ip)) && (forall j int :: 0 <= j && j < k ==> !old(a.ips[name][j].ip.Equal(adv.ip))), adv, old(a.ips[name][k]))
+//@   ensures [grow] len(a.ips[name]) == old(len(a.ips[name])) || (len(a.ips[name]) == old(len(a.ips[name])) + 1 && a.ips[name][len(a.ips[name]) - 1] == adv
+//@       && (forall j int :: old(Entry(a, name, j)) ==> !old(a.ips[name][j].ip.Equal(adv.ip))))
+//@   ensures [others] forall s string, k int :: s != name ==> (s in a.ips) == old(s in a.ips) && Entry(a, s, k) == old(Entry(a, s, k)) && (Entry(a, s, k) ==> a.ips[s][k] == old(a.ips[s][k]))
+//@   modifies $held, map(a.ips), map(a.ipRefcnt), elems(a.ips[name]), fresh []IPAdvertisement, map[string]int64, fresh []interface{}
+//@   loop 1 invariant lockstate(a.RWMutex) == 2 && AnnInv(a) && (name in a.ips) && sameSlice(ipAdvertisements, a.ips[name])
+//@   loop 1 invariant forall j int :: 0 <= j && j < iter ==> !a.ips[name][j].ip.Equal(adv.ip)
+//@   loop 1 invariant forall s string, k int :: (s in a.ips) == old(s in a.ips) && Entry(a, s, k) == old(Entry(a, s, k)) && (Entry(a, s, k) ==> a.ips[s][k] == old(a.ips[s][k]))
+//@   loop 2 invariant lockstate(a.RWMutex) == 2
+
+//@ func (*Announce).DeleteBalancer
+//@   requires AnnInv(a) && lockstate(a.RWMutex) == 0
+//@   ensures [inv] AnnInv(a) && lockstate(a.RWMutex) == 0
+//@   ensures [gone] !(name in a.ips)
+//@   ensures [others] forall s string, k int :: s != name ==> (s in a.ips) == old(s in a.ips) && Entry(a, s, k) == old(Entry(a, s, k)) && (Entry(a, s, k) ==> a.ips[s][k] == old(a.ips[s][k]))
+//@   modifies $held, map(a.ips), map(a.ipRefcnt), map[string]int64, fresh []interface{}
+//@   loop 1 invariant lockstate(a.RWMutex) == 2 && AnnInv(a) && !(name in a.ips)
+//@   loop 1 invariant forall s string, k int :: s != name ==> (s in a.ips) == old(s in a.ips) && Entry(a, s, k) == old(Entry(a, s, k)) && (Entry(a, s, k) ==> a.ips[s][k] == old(a.ips[s][k]))
+//@   loop 2 invariant lockstate(a.RWMutex) == 2
+
+//@ func (*Announce).AnnounceName
+//@   requires a != nil && lockstate(a.RWMutex) == 0
+//@   ensures result == (name in a.ips) && lockstate(a.RWMutex) == 0
+//@   modifies $held
